@@ -115,6 +115,14 @@ Theorem C15_accepted_never_panics : forall size calls,
 Proof. exact accepted_never_panics. Qed.
 Print Assumptions C15_accepted_never_panics.
 
+(* ... whatever glob.matching.disabled says: main.go builds the cache unconditionally, so the
+   load-time check must not (and in the model does not) depend on that flag. *)
+Theorem C15_accepted_never_panics_any_flag : forall size disabled calls,
+  load_then_use_settings size disabled calls = Err 1 \/
+  exists l, load_then_use_settings size disabled calls = Ok l /\ ~ In Panic l.
+Proof. exact accepted_never_panics_any_flag. Qed.
+Print Assumptions C15_accepted_never_panics_any_flag.
+
 Theorem C15_load_accepts_iff : forall size,
   load_accepts_glob_cache_size size = true <-> (0 < size)%Z.
 Proof. exact load_accepts_iff. Qed.
@@ -147,6 +155,17 @@ Theorem C15_globcache_not_runnable_outside_domain : forall size p,
   (size <= 0)%Z -> runnable size p = false.
 Proof. exact not_runnable_outside_domain. Qed.
 Print Assumptions C15_globcache_not_runnable_outside_domain.
+
+(* Load keeps no state between calls (model: a history of Loads is the list of the single
+   Loads): the result for an input is the single-Load result whatever was loaded before,
+   and the results of earlier Loads are unchanged by later ones.  Tied to the code by the
+   load-history class (same-process sequences compared with fresh-process Loads). *)
+Theorem C15_load_history_independent :
+  forall (I R : Type) (load : I -> R) (before after : list I) (x : I),
+  nth_error (load_history load (before ++ x :: after)) (length before) = Some (load x) /\
+  firstn (length before) (load_history load (before ++ x :: after)) = load_history load before.
+Proof. exact @load_history_independent. Qed.
+Print Assumptions C15_load_history_independent.
 
 (* non-vacuity: concrete configurations meet the hypotheses *)
 Theorem C15_source_equivalence_nonvacuous :
